@@ -50,6 +50,12 @@ func wireMsgKey(m *wireMsg) (string, bool) {
 		if len(m.payload) == 4+1+32+32 {
 			return m.cmd + ":" + string(m.payload[5:37]), true
 		}
+	case "reject":
+		// (only rejects of a transaction carry a hash: the ones the
+		// application queues; the peer's own are about "malformed"/"version")
+		if n := len(m.payload); n >= 3+1+1+32 && m.payload[0] == 2 && string(m.payload[1:3]) == "tx" {
+			return m.cmd + ":" + string(m.payload[n-32:]), true
+		}
 	}
 	return "", false
 }
